@@ -12,10 +12,25 @@ pub struct Entry {
 }
 
 pub const ENTRIES: &[Entry] = &[
+    Entry { id: "C04", run: crate::c04::run, replay: crate::c04::replay },
+    Entry { id: "C05", run: crate::c05::run, replay: crate::c05::replay },
+    Entry { id: "C01", run: crate::c01::run, replay: crate::c01::replay },
+    Entry { id: "C02", run: crate::c02::run, replay: crate::c02::replay },
+    Entry { id: "C03", run: crate::c03::run, replay: crate::c03::replay },
+    Entry { id: "C07", run: crate::c07::run, replay: crate::c07::replay },
+    Entry { id: "C09", run: crate::c09::run, replay: crate::c09::replay },
+    Entry { id: "C08", run: crate::c08::run, replay: crate::c08::replay },
     Entry { id: "C10", run: crate::c10::run, replay: crate::c10::replay },
+    Entry { id: "C11", run: crate::c11::run, replay: crate::c11::replay },
+    Entry { id: "C12", run: crate::c12::run, replay: crate::c12::replay },
+    Entry { id: "C13", run: crate::c13::run, replay: crate::c13::replay },
     Entry { id: "C14", run: crate::c14::run, replay: crate::c14::replay },
+    Entry { id: "C15", run: crate::c15::run, replay: crate::c15::replay },
+    Entry { id: "C16", run: crate::c16::run, replay: crate::c16::replay },
+    Entry { id: "C17", run: crate::c17::run, replay: crate::c17::replay },
     Entry { id: "C18", run: crate::c18::run, replay: crate::c18::replay },
     Entry { id: "C19", run: crate::c19::run, replay: crate::c19::replay },
+    Entry { id: "C20", run: crate::c20::run, replay: crate::c20::replay },
 ];
 
 pub fn find(id: &str) -> Option<&'static Entry> {
